@@ -46,6 +46,12 @@ Theorem C14_rx_accept_sound_unbalanced_slave : forall alen own msg fc bc fcb fcv
   parse_su true alen own msg = SuOk fc bc fcb fcv uds udl -> su_accepts alen own msg fc bc fcb fcv uds udl.
 Proof. exact parse_su_sound. Qed.
 
+(* ... and conversely every frame satisfying the clauses is accepted: acceptance is EXACTLY the specification predicate *)
+Theorem C14_rx_accept_complete_unbalanced_slave : forall alen own msg fc bc fcb fcv uds udl, 0 <= alen <= 2 ->
+  own <> broadcast_addr alen -> su_accepts alen own msg fc bc fcb fcv uds udl ->
+  parse_su true alen own msg = SuOk fc bc fcb fcv uds udl.
+Proof. exact parse_su_complete. Qed.
+
 Theorem C14_rx_accept_sound_balanced_and_master : forall alen msg, 0 <= alen <= 2 ->
   match parse_bp true alen msg with
   | BpDrop => True
